@@ -51,7 +51,7 @@ def scalar(b):
     return b.int("c") if b.cfg.ck == "int" else b.real("c")
 
 
-@contract(HB + ".__imul__", props=["C06", "C13", "C18"], name=HB + ".__imul__[any bin count]")
+@contract(HB + ".__imul__", props=["C06", "C13", "C14", "C18"], name=HB + ".__imul__[any bin count]")
 class _imul_u:
     configs = staticmethod(_scal_cfgs)
 
@@ -85,6 +85,14 @@ class _imul_u:
         return And(attr(a.self, "_dtype") == want, dtype_of(Fq(a.self)) == want, dtype_of(Eq(a.self)) == want,
                    same(attr(attr(old.self, "_binnings")[0], "_bins"), attr(attr(a.self, "_binnings")[0], "_bins")))
 
+    @ensures("recorded_weight_scales_by_c_moments_minimum_and_maximum_are_those_of_the_raw_data")
+    def _(a, old, result):
+        s, r, c = attr(old.self, "_stats"), attr(a.self, "_stats"), old.other
+        # weighted sums scale linearly with the weights (so mean = sum / weight and the variance are invariant), extremes stay
+        return And(r.weight == s.weight * c, r.sum == s.sum * c, r.sum2 == s.sum2 * c, r.min == s.min, r.max == s.max,
+                   Implies(And(c > 0, s.weight > 0), lambda: And(close(div(r.sum, r.weight), div(s.sum, s.weight)),
+                                                                  close(div(r.sum2, r.weight), div(s.sum2, s.weight)))))
+
 
 @contract(HB + ".__itruediv__", props=["C06", "C13"], name=HB + ".__itruediv__[any bin count]")
 class _idiv_u:
@@ -105,7 +113,7 @@ class _idiv_u:
                    attr(a.self, "_dtype") == np.dtype("float64"), dtype_of(Fq(a.self)) == np.dtype("float64"))
 
 
-@contract(HB + ".__iadd__", props=["C05", "C13"], name=HB + ".__iadd__[same bins, any bin count]")
+@contract(HB + ".__iadd__", props=["C05", "C13", "C14"], name=HB + ".__iadd__[same bins, any bin count]")
 class _iadd_u:
     def configs():
         return [{"d1": "int64", "d2": "int64"}, {"d1": "int64", "d2": "float64"}, {"d1": "float64", "d2": "float64"}]
@@ -127,6 +135,12 @@ class _iadd_u:
                    same(m1, [x + y for x, y in zip(m0, mo)]),
                    attr(a.self, "_dtype") == want, dtype_of(Fq(a.self)) == want,
                    same(Fq(old.other), Fq(a.other)), same(Eq(old.other), Eq(a.other)))
+
+    @ensures("statistics_add")
+    def _(a, old, result):
+        s, o, r = attr(old.self, "_stats"), attr(old.other, "_stats"), attr(a.self, "_stats")
+        return And(r.sum == s.sum + o.sum, r.sum2 == s.sum2 + o.sum2, r.weight == s.weight + o.weight,
+                   r.min == fmin(s.min, o.min), r.max == fmax(s.max, o.max), same(attr(old.other, "_stats"), attr(a.other, "_stats")))
 
 
 @contract(HB + ".__iadd__", props=["C05", "C18"], name=HB + ".__iadd__[refusals, any bin count]")
@@ -819,7 +833,7 @@ def _fresh(result, *operands):
                *[bn is not obn for o in operands for bn in attr(result, "_binnings") for obn in attr(o, "_binnings")])
 
 
-@contract(HB + ".__add__", props=["C05", "C12"], name=HB + ".__add__[same bins, any bin count]")
+@contract(HB + ".__add__", props=["C05", "C12", "C14"], name=HB + ".__add__[same bins, any bin count]")
 class _add_u:
 
     def configs():
@@ -839,6 +853,14 @@ class _add_u:
         return And(count_of(result) == n, forall(0, n, lambda i: And(f1[i] == f0[i] + g[i], e1[i] == e0[i] + ge[i])),
                    attr(result, "_dtype") == want, dtype_of(f1) == want, dtype_of(e1) == want,
                    _untouched(old.self, a.self), _untouched(old.other, a.other), _fresh(result, a.self, a.other))
+
+    @ensures("statistics_add_operands_keep_theirs")
+    def _(a, old, result):
+        s, o, r = attr(old.self, "_stats"), attr(old.other, "_stats"), attr(result, "_stats")
+        return And(r.sum == s.sum + o.sum, r.sum2 == s.sum2 + o.sum2, r.weight == s.weight + o.weight,
+                   r.min == fmin(s.min, o.min), r.max == fmax(s.max, o.max),
+                   same(attr(old.self, "_stats"), attr(a.self, "_stats")), same(attr(old.other, "_stats"), attr(a.other, "_stats")),
+                   attr(result, "_stats") is not attr(a.self, "_stats"))
 
 
 @contract(HB + ".__mul__", props=["C06", "C12"], name=HB + ".__mul__[any bin count]")
